@@ -622,3 +622,22 @@ package validate
 //@   loop 1 invariant cacheInv(newCache)
 //@   loop 1 invariant !published(newCache)
 //@   loop 1 invariant held(cacheMutex)
+
+// Enum / EnumCase: membership by deep equality, plus case folding for strings when not case sensitive
+// (the converse direction - nil only for members - is not claimed: see DESIGN.md, finding D11).
+//@ func EnumCase
+//@   pure
+//@   ensures[C14] implies(kind(enum) != 23, result == nil)
+//@   ensures[C14] implies(kind(enum) == 23 && data != nil && exists(i, 0, lenOf(enum), deepEq(data, elemAt(enum, i))), result == nil)
+//@   ensures[C14] implies(kind(enum) == 23 && data != nil && !caseSensitive && isStr(data) && exists(i, 0, lenOf(enum), isStr(elemAt(enum, i)) && equalFold(strof(data), strof(elemAt(enum, i)))), result == nil)
+//@   loop 1 invariant 0 <= i && i <= lenOf(enum)
+//@   loop 1 invariant arr(values) == nil || fresh(arr(values))
+//@   loop 1 invariant implies(data != nil, forall(j, 0, i, !deepEq(data, elemAt(enum, j))))
+//@   loop 1 invariant implies(data != nil && !caseSensitive && isStr(data), forall(j, 0, i, !(isStr(elemAt(enum, j)) && equalFold(strof(data), strof(elemAt(enum, j))))))
+//@ func Enum
+//@   pure
+//@   ensures[C14] implies(kind(enum) == 23 && data != nil && exists(i, 0, lenOf(enum), deepEq(data, elemAt(enum, i))), result == nil)
+//@ func convertEnumCaseStringKind
+//@   pure
+//@   ensures[C14] (result != nil) == (!caseSensitive && kind(value) == 24)
+//@   ensures[C14] implies(result != nil && isStr(value), *result == strof(value))
